@@ -2405,6 +2405,8 @@ func (c *RegionCache) loadRegion(bo *retry.Backoffer, key []byte, isEndKey bool,
 		}
 		if reg == nil || reg.Meta == nil {
 			backoffErr = errors.Errorf("region not found for key %q, encode_key: %q", redact.Key(key), redact.KeyBytes(c.codec.EncodeRegionKey(key)))
+			// The region that started at key may be gone by now, start over from the region of the key.
+			searchPrev = false
 			continue
 		}
 		if len(reg.Meta.Peers) == 0 {
@@ -2412,6 +2414,14 @@ func (c *RegionCache) loadRegion(bo *retry.Backoffer, key []byte, isEndKey bool,
 		}
 		if isEndKey && !searchPrev && bytes.Equal(reg.Meta.StartKey, key) && len(reg.Meta.StartKey) != 0 {
 			searchPrev = true
+			continue
+		}
+		if searchPrev && !(bytes.Compare(reg.Meta.StartKey, key) < 0 &&
+			(len(reg.Meta.EndKey) == 0 || bytes.Compare(key, reg.Meta.EndKey) <= 0)) {
+			// The regions changed between the two PD requests (e.g. the region that started at key was merged
+			// into its left neighbour), so the previous region of today does not end at key. Start over.
+			backoffErr = errors.Errorf("previous region does not contain end key %q, encode_key: %q", redact.Key(key), redact.KeyBytes(c.codec.EncodeRegionKey(key)))
+			searchPrev = false
 			continue
 		}
 		return newRegion(bo, c, reg)
